@@ -66,6 +66,7 @@ def convert(execution) -> dict:
     mark(prog["nodes"], "")
     wfc_nodes = {}
     custom_val = set()
+    custom_err = set()        # steps whose scripted exception message does not encode the attempt
 
     def collect(nodes, prefix):
         i = 0
@@ -78,6 +79,8 @@ def convert(execution) -> dict:
                 wfc_nodes[path] = node
             if node["k"] == "step" and node.get("val") is not None:
                 custom_val.add(path)
+            if node["k"] == "step" and node.get("errmsg") is not None:
+                custom_err.add(path)
             if node["k"] == "child":
                 collect(node.get("body", []), path + "/")
             if node["k"] == "cb":
@@ -129,6 +132,8 @@ def convert(execution) -> dict:
         cls = rep.split("|")[0]
         msg = rep.split("|")[1] if "|" in rep else ""
         if cls == "StepInterruptedError":
+            return -1
+        if ik == "STEP" and d["path"] in custom_err:
             return -1
         if ik in ("STEP", "WFC"):
             m = re.search(r" a(\d+)$", msg)
@@ -184,6 +189,12 @@ def convert(execution) -> dict:
                 pending_call["fcls"] = "retriable" if FAULTS[name][3] else "fatal"
                 out.append(pending_call)
             pending_call = None
+        elif n == "GetStateFail":
+            # fetching a further page of a checkpoint RESPONSE failed: the call was applied, the SDK treats it as failed
+            last_api = next((x for x in reversed(out) if x["ev"] in ("Api", "InvStart")), None)
+            if last_api is None or last_api["ev"] != "Api" or not last_api["ok"]:
+                raise Unsupported("page fetch of the initial history failed (outside Durable.tla)")
+            last_api["ok"], last_api["o"], last_api["fcls"] = False, "applied", "retriable"
         elif n == "FnEnter":
             out.append(ev("FnEnter", i=idx_of_path(e["path"]), att=e["attempt"]))
         elif n == "Deliver":
